@@ -107,7 +107,9 @@ def _obj2d(A):
 
 
 def _kkt_solution(tag, A, b, lower_zero=True):
-    """fresh x with the KKT conditions of min ||Ax-b||^2, x >= 0; a function of (A, b)."""
+    """fresh x with the KKT conditions of min ||Ax-b||^2, x >= 0; a function of (A, b).
+    Residuals r = A x - b and the gradient G = A^T r are named auxiliary variables (so that sign lemmas about
+    products stay small).  Returns (x, r, G) as lists of SymReal."""
     c = core.CTX
     A = _obj2d(A)
     b = np.asarray(b, dtype=object).reshape(-1)
@@ -117,17 +119,21 @@ def _kkt_solution(tag, A, b, lower_zero=True):
     if key in memo:
         return memo[key][0]
     xs = [c.newvar(f"{tag}x{j}_") for j in range(n)]
+    rs = [c.newvar(f"{tag}r{i}_") for i in range(m)]
+    gs = [c.newvar(f"{tag}g{j}_") for j in range(n)]
     At = [[lift(A[i, j]) for j in range(n)] for i in range(m)]
     bt = [lift(v) for v in b]
-    res = [z3.Sum([At[i][j] * xs[j] for j in range(n)]) - bt[i] for i in range(m)]     # A x - b
-    grad = [z3.Sum([At[i][j] * res[i] for i in range(m)]) for j in range(n)]            # A^T (A x - b)
+    for i in range(m):
+        c.add_def(Def(rs[i], "kkt-residual", rs[i] == z3.Sum([At[i][j] * xs[j] for j in range(n)]) - bt[i]))
+    for j in range(n):
+        c.add_def(Def(gs[j], "kkt-gradient", gs[j] == z3.Sum([At[i][j] * rs[i] for i in range(m)])))
     cons = []
     for j in range(n):
-        cons += [xs[j] >= 0, grad[j] >= 0, xs[j] * grad[j] == 0]
+        cons += [xs[j] >= 0, gs[j] >= 0, xs[j] * gs[j] == 0]
     exact = z3.And(*cons)
     abstract = z3.And(*[x >= 0 for x in xs])
     c.add_def(Def(xs, "kkt", exact, abstract))
-    out = [SymReal(x) for x in xs]
+    out = ([SymReal(x) for x in xs], [SymReal(r) for r in rs], [SymReal(g) for g in gs])
     memo[key] = (out, A, b)
     return out
 
@@ -142,8 +148,8 @@ def nnls(A, b, maxiter=None, **k):
         cap("nnls", A=Af, b=bf, x=x)
         return x, rn
     _hit("nnls")
-    x = _kkt_solution("nn", A, b)
-    cap("nnls", A=_obj2d(A), b=np.asarray(b, dtype=object).reshape(-1), x=x)
+    x, r, g = _kkt_solution("nn", A, b)
+    cap("nnls", A=_obj2d(A), b=np.asarray(b, dtype=object).reshape(-1), x=x, r=r, g=g)
     return np.array(x, dtype=object).view(SymArray), fresh("rnorm")
 
 
@@ -165,8 +171,8 @@ def lsq_linear(A, b, bounds=(-np.inf, np.inf), **k):
     lo, hi = bounds
     if not (np.all(np.asarray(lo) == 0) and np.all(np.isinf(np.asarray(hi, dtype=float)))):
         raise Inconclusive(f"lsq_linear stub only models bounds (0, inf), got {bounds}")
-    x = _kkt_solution("ll", A, b)
-    cap("lsq_linear", A=_obj2d(A), b=np.asarray(b, dtype=object).reshape(-1), x=x, bounds=bounds)
+    x, r, g = _kkt_solution("ll", A, b)
+    cap("lsq_linear", A=_obj2d(A), b=np.asarray(b, dtype=object).reshape(-1), x=x, r=r, g=g, bounds=bounds)
     return _LsqResult(x=np.array(x, dtype=object).view(SymArray), success=True)
 
 
@@ -321,6 +327,9 @@ def linalg_inv(A):
             cap("inv_attempt", shape=Aobj.shape, outcome="singular")
             raise
         cap("inv_attempt", shape=Aobj.shape, outcome="regular", A=np.asarray(A, dtype=float))
+        if ENV.mode == "conc":
+            r = r.view(RecInverse)
+            r._A = np.asarray(A, dtype=float)
         return r
     if not has_sym(Aobj):
         _hit("inv(exact rational)")
@@ -349,6 +358,15 @@ def linalg_inv(A):
         raise np.linalg.LinAlgError("Singular matrix")
     cap("inv_attempt", shape=Aobj.shape, outcome="regular", A=Aobj)
     return SymInverse(Aobj.view(SymArray))
+
+
+class RecInverse(np.ndarray):
+    """real inverse (concrete replay) that records `inv @ b`."""
+
+    def __matmul__(self, b):
+        x = np.asarray(self) @ np.asarray(b, dtype=float)
+        cap("inv", A=getattr(self, "_A", None), b=np.asarray(b, dtype=float), x=x)
+        return x
 
 
 class EigToken:
